@@ -81,7 +81,32 @@ func goEnv() []string {
 		}
 		out = append(out, e)
 	}
-	return append(out, "GOFLAGS=-mod=mod", "GOPROXY=off")
+	out = append(out, "GOFLAGS=-mod=mod", "GOPROXY=off")
+	return out
+}
+
+// scratchCache, when set, is a hard-link copy of the Go build cache inside the
+// scratch directory. Every generated parser is a new package (about 1 MB of
+// build cache each); building against the copy keeps those entries out of the
+// real cache and they disappear with the scratch directory.
+var scratchCache string
+
+func useScratchCache(scratch string) {
+	out, err := run("/", time.Minute, "go", "env", "GOCACHE")
+	if err != nil {
+		return
+	}
+	main := strings.TrimSpace(out)
+	if main == "" || os.Getenv("VERIF_SHARED_CACHE") != "" {
+		return
+	}
+	dst := filepath.Join(scratch, "gocache")
+	if _, err := run("/", 5*time.Minute, "cp", "-al", main, dst); err != nil {
+		os.RemoveAll(dst)
+		return
+	}
+	scratchCache = dst
+	os.Setenv("GOCACHE", dst) // also for go/packages inside the rewriter
 }
 
 func run(dir string, timeout time.Duration, name string, args ...string) (string, error) {
@@ -117,6 +142,9 @@ func newScratch(tag string) string {
 		fatalHarness("mktemp: %v", err)
 	}
 	scratchDirs = append(scratchDirs, d)
+	if scratchCache == "" {
+		useScratchCache(d)
+	}
 	return d
 }
 
@@ -162,7 +190,7 @@ func buildToolWorld(scratch string) *toolWorld {
 	if !res.MainRenamed {
 		fatalHarness("tool-world rewrite: no func main found in package main")
 	}
-	drv := "package main\n\nimport \"verifsim/tooldriver\"\n\nfunc main() { tooldriver.Serve(pigeonMain) }\n"
+	drv := toolDriverSource
 	if err := os.WriteFile(filepath.Join(dir, "verif_driver_main.go"), []byte(drv), 0o644); err != nil {
 		fatalHarness("%v", err)
 	}
@@ -193,3 +221,67 @@ func mustJSON(v any) []byte {
 	}
 	return b
 }
+
+// toolDriverSource is added to package main of the scratch copy. Besides
+// serving main() it offers the library-style double build: parse once with
+// the real front-end, optionally optimize, and call builder.BuildParser twice
+// on the same grammar value (only documented, exported API is used).
+const toolDriverSource = `package main
+
+import (
+	"bytes"
+	"strings"
+
+	"github.com/mna/pigeon/ast"
+	"github.com/mna/pigeon/builder"
+	"verifsim/tooldriver"
+)
+
+func main() { tooldriver.Serve(pigeonMain, verifRebuild) }
+
+func verifRebuild(c *tooldriver.Case, src []byte) (out1, out2 []byte, err1, err2 string) {
+	var alt []string
+	var opts []builder.Option
+	optimize := false
+	for i := 0; i < len(c.Args); i++ {
+		switch c.Args[i] {
+		case "-optimize-grammar":
+			optimize = true
+		case "-optimize-parser":
+			opts = append(opts, builder.Optimize(true))
+		case "-optimize-basic-latin":
+			opts = append(opts, builder.BasicLatinLookupTable(true))
+		case "-nolint":
+			opts = append(opts, builder.Nolint(true))
+		case "-support-left-recursion":
+			opts = append(opts, builder.SupportLeftRecursion(true))
+		case "-receiver-name":
+			if i+1 < len(c.Args) {
+				opts = append(opts, builder.ReceiverName(c.Args[i+1]))
+				i++
+			}
+		case "-alternate-entrypoints":
+			if i+1 < len(c.Args) {
+				alt = strings.Split(c.Args[i+1], ",")
+				i++
+			}
+		}
+	}
+	g, err := ParseReader("grammar.peg", bytes.NewReader(src))
+	if err != nil {
+		return nil, nil, err.Error(), err.Error()
+	}
+	gr := g.(*ast.Grammar)
+	if optimize {
+		ast.Optimize(gr, alt...)
+	}
+	var b1, b2 bytes.Buffer
+	if e := builder.BuildParser(&b1, gr, opts...); e != nil {
+		err1 = e.Error()
+	}
+	if e := builder.BuildParser(&b2, gr, opts...); e != nil {
+		err2 = e.Error()
+	}
+	return b1.Bytes(), b2.Bytes(), err1, err2
+}
+`
